@@ -8,7 +8,8 @@
    Add and reply metadata with Set, and the connection-class test has the modelled bounds. *)
 From Coq Require Import Strings.String Strings.Byte.
 From Coq Require Import List Arith NArith ZArith Bool Lia.
-From Verif Require Import Base.Bytes Model.Proxy Generated.C19Proxy Proofs.ProxySourceProofs.
+From Verif Require Import Base.Bytes Model.Proxy Generated.C19Proxy Generated.C19Session
+  Proofs.ProxySourceProofs.
 Import ListNotations.
 
 Theorem C19_source_is_the_modelled_variant :
@@ -20,3 +21,20 @@ Theorem C19_source_is_the_modelled_variant :
             && Z.ltb (st_code s) src_class_below.
 Proof. exact source_variant_lemma. Qed.
 Print Assumptions C19_source_is_the_modelled_variant.
+
+(* Second table (translator/gen_c19session.go -> Generated/C19Session.v, from session.go):
+   session.Call has exactly one AsyncCall call site, outside any branch, loop or goto, so
+   the forwarder's Call is [client_call false] - the call is issued once; and the only
+   repetition inside AsyncCall and Push is the `goto W` guarded by
+   `stat == statConnClosed && s.redialForClient(usedConn)` directly after the refused
+   s.write(output) (nothing was sent).  Hence the second hop of the CURRENT source is one of
+   the three failure phases, and C19_redial_forwarded_at_most_once /
+   C19_redial_status_is_direct_or_bad_gateway are about it.  A Call that issues the call a
+   second time (C19_reissuing_call_refuted) makes this theorem fail to build. *)
+Theorem C19_source_call_issues_once :
+  src_call_reissues = false /\ src_write_retry_guarded = true /\
+  forall h cl ft be pa frq,
+    client_call src_call_reissues h cl ft be pa frq
+    = session_forwarder be pa (fault_failure cl ft) frq.
+Proof. exact source_call_lemma. Qed.
+Print Assumptions C19_source_call_issues_once.
